@@ -393,9 +393,11 @@ def scenarios():
     import keyword
     from vf import genlab as G
     G.stub_pandoc_if_absent()
-    rng = random.Random(20261002)
+    import os
+    thorough = os.environ.get("VERIF_TIER") == "thorough"
+    rng = random.Random(20261002 + int(os.environ.get("VERIF_SEED", "0") or 0))
     failures = []
-    n = check_files(files(f4_witness=True), {"corpus": "main"}, failures, rng)
+    n = check_files(files(f4_witness=True), {"corpus": "main"}, failures, rng, valuations=40 if thorough else 6)
     n += rel_cases(failures)
     return {"cases": n, "failures": failures}
 
